@@ -154,6 +154,47 @@ class SlowHandler:
         return bad
 
 
+class HandlerNotifTwice:
+    """the handler answers an UPDATE with a NOTIFICATION on two consecutive sessions of the same (outbound) FSM object: each
+    session ends with that NOTIFICATION on the wire and OnClose, and the peer comes back"""
+    no_model = True
+
+    def __init__(self, sid, direction):
+        self.sid, self.direction = sid, direction
+        self.tag = "handler-notification-on-consecutive-sessions." + direction
+        self.remote_id = 0x0A000002
+
+    def scenario(self):
+        op, ka, upd = S.frame(S.OPEN, S.open_body()).hex(), S.frame(S.KEEPALIVE).hex(), S.frame(S.UPDATE, bytes(4)).hex()
+        st = []
+        for k in (1, 2, 3):
+            c = "c%d" % k
+            st += [["dial", c]] if self.direction == "in" else [["accept", c, 2500]]
+            st += [["recv", c, 1, 1500], ["send", c, op, 0], ["send", c, ka, 0], ["recv", c, 2, 1500], ["sleep", 20]]
+            if k < 3:
+                st += [["send", c, upd, 0], ["recv_eof", c, 1500], ["sleep", 30]]
+        return {"id": self.sid, "local_as": 65001, "remote_as": 65000, "local_id": 0x0A000001, "hold": 90,
+                "passive": self.direction == "in", "idle_hold_ms": 60, "connect_retry_ms": 300, "caps": [], "on_open": None,
+                "handler": [[6, 4, "aa"]], "est_writes": [], "steps": st}
+
+    def model_case(self):
+        return None
+
+    def check(self, r):
+        bad = []
+        est = sum(1 for cb in r["cbs"] if cb["name"] == "OnEstablished" and cb["ph"] == "enter")
+        closes = sum(1 for cb in r["cbs"] if cb["name"] == "OnClose" and cb["ph"] == "exit")
+        if est < 3:
+            bad.append("after the handler's NOTIFICATION ended a session the peer did not establish again (%d of 3 sessions)" % est)
+        for k in (1, 2):
+            c = next((x for x in r["conns"] if x["name"] == "c%d" % k), None)
+            if c and est >= k and not any(m["t"] == 3 and m["b"] == "0604aa" for m in c["msgs"]):
+                bad.append("session %d: the handler's NOTIFICATION (6,4,aa) was not sent verbatim" % k)
+        if closes < min(est, 3) - 0 and not bad:
+            bad.append("OnClose delivered %d times for %d established sessions" % (closes, est))
+        return bad
+
+
 def judge(c, e, o, r):
     got = [x[1] for x in o["cbs"] if x[0] == "Handler"]
     want = c.meta["bodies"]
@@ -170,6 +211,9 @@ def judge(c, e, o, r):
 def sys_part(tier, rng, rep, replay):
     cov = sysrun.run_convs(PID, convs(rng, tier) + burst_convs(rng, tier), rep)
     # (the expiry race is lost about every second time: several sessions)
+    tw = [HandlerNotifTwice(3500, "out"), HandlerNotifTwice(3501, "in")]
+    cov3 = sysrun.run_convs(PID, tw, rep, extra_check=lambda c, e, o, r: c.check(r), par=4)
+    cov["evaluations"] = cov.get("evaluations", 0) + cov3["evaluations"]
     slow = [SlowHandler(3000 + k) for k in range(6 if tier == "quick" else 16)]
     cov2 = sysrun.run_convs(PID, slow, rep, extra_check=lambda c, e, o, r: c.check(r), par=16, confirm=4)
     cov["evaluations"] = cov.get("evaluations", 0) + cov2["evaluations"]
